@@ -343,6 +343,9 @@ func interpCases(c *Ctx, n int, tweak func(cfg *GenCfg, i int), post func(s *Sce
 		case "saveAllDebt":
 			prog = g.saveAllDebtProgram()
 			c.count("directed:saveAllDebt")
+		case "remainingFirst":
+			prog = g.remainingFirstProgram()
+			c.count("directed:remainingFirst")
 		case "originOtherAsset":
 			prog = g.originOtherAssetProgram(cfg.OneSend)
 			c.count("directed:originOtherAsset")
@@ -372,6 +375,23 @@ func c06Program(g *Gen, r *Rand, n *big.Int, mirrored bool) *GProgram {
 	g.asset = assetPool[r.Weighted(80, 10, 10)]
 	k := 1 + r.Weighted(10, 40, 30, 20)
 	allots := g.allots(k)
+	if r.Chance(1, 8) {
+		// ONE portion variable written in two clauses (the shares of the second must not depend on the first)
+		den := int64(2 + r.Intn(9))
+		num := int64(1 + r.Intn(int(den)/2))
+		name := g.freshName()
+		raw := g.portionText(bi(num), bi(den))
+		g.prog.Vars = append(g.prog.Vars, &GVarDecl{Type: "portion", Name: name})
+		g.rawVars[name] = raw
+		use := func() *GAllot { return &GAllot{Kind: AlVar, E: &GExpr{Kind: XVar, S: name}} }
+		allots = []*GAllot{use(), use(), {Kind: AlRemaining}}
+		if 2*num == den {
+			allots = allots[:2]
+		}
+		if r.Chance(1, 3) {
+			allots[0], allots[1] = allots[1], allots[0]
+		}
+	}
 	var amount *GExpr
 	if n.IsInt64() {
 		amount = &GExpr{Kind: XMonetary, A: &GExpr{Kind: XAsset, S: g.asset}, B: &GExpr{Kind: XNumber, N: n}}
@@ -519,6 +539,8 @@ func init() {
 				cfg.Directed = "overdraftOrigin"
 			case 15:
 				cfg.Directed = "saveAllDebt"
+			case 5:
+				cfg.Directed = "remainingFirst"
 			}
 		}, nil)
 	}
